@@ -1,5 +1,7 @@
 """C10 - report summaries agree with the listed entries; --stat equals the summary of the full report."""
+import os
 from .. import core, wl, run, mutate, pairs, report
+from . import c08
 
 PROP = "C10"
 LEVEL = "exploration"
@@ -7,7 +9,8 @@ FLAVORS = ["plain"]
 ENGINE = "cli-oracle"
 TECHNIQUE = "runtime oracle over parsed reports: summary counters vs section headlines vs counted [D]/[A]/[C] entries, and --stat vs the summary lines of the full report"
 LEVEL_TEXT = ("program pairs with 2-6 mixed mutations (removed, added, changed functions and variables; pairs built without debug info in "
-              "one TU so that symbol-only sections appear) are compared with default 'show everything' options; for every section the net "
+              "one TU so that symbol-only sections appear, some functions carrying ELF aliases) are compared with default options, with "
+              "--redundant --harmless, and with a generated suppression specification naming what was mutated; for every section the net "
               "summary counter, the section headline number and the number of listed entries must be equal, filtered-out counts must not "
               "exceed what the --redundant/--harmless run shows as total, and 'abidiff --stat' must print exactly the summary lines of the "
               "full report.")
@@ -18,6 +21,22 @@ SECTION_OF = {("fn", "removed"): "fn-removed", ("fn", "changed"): "fn-changed", 
               ("var", "removed"): "var-removed", ("var", "changed"): "var-changed", ("var", "added"): "var-added",
               ("fsym", "removed"): "fsym-removed", ("fsym", "added"): "fsym-added",
               ("vsym", "removed"): "vsym-removed", ("vsym", "added"): "vsym-added"}
+
+
+def m_remove_aliased_function(prog, rng):
+    """Remove an exported function together with its ELF aliases (the removed symbol then has aliases in the old binary)."""
+    c = [f for f in prog.exported_functions() if f.aliases and f.visibility != "hidden"]
+    if not c or len(prog.exported_functions()) < 2:
+        return None
+    f = rng.choice(c)
+    q = prog.clone()
+    q.functions = [x for x in q.functions if x.name != f.name]
+    names = [f.name] + [a for a, _w in f.aliases]
+    return q, mutate.Expect("remove-aliased-function", affected=[f.name], removed=names)
+
+
+CATALOG = dict(mutate.MIXED)
+CATALOG["remove-aliased-function"] = m_remove_aliased_function
 
 
 def plan(tier):
@@ -52,7 +71,12 @@ def case(ctx, i):
         # one TU without debug info in some cases: symbol-only sections
         if p.ntus >= 2 and rng_.random() < 0.35:
             p.tu_nodebug.add(p.ntus - 1)
-    pr, why = pairs.make_pair(ctx, rng, d, mutate.MIXED, nmut=rng.randint(2, 6), decorate=deco,
+        # ELF aliases on some functions, so that removed / changed interfaces with aliased symbols occur
+        fns = p.exported_functions()
+        if p.lang == "c" and fns:
+            for f in rng_.sample(fns, min(len(fns), rng_.choice([0, 1, 1, 2]))):
+                f.aliases.append(("%s_alias%d" % (f.name, rng_.randint(1, 9)), False))
+    pr, why = pairs.make_pair(ctx, rng, d, CATALOG, nmut=rng.randint(2, 6), decorate=deco,
                               gen_kw={"ntus": rng.choice([1, 2, 3])})
     if pr is None:
         return r.skip(why)
@@ -60,16 +84,24 @@ def case(ctx, i):
     what = "+".join(e.kind for e in pr.expects) + " " + wl.describe_cfg(pr.cfg)
     populated = 0
     totals = {}
-    for opts in ([], ["--redundant", "--harmless"]):
+    sf = os.path.join(d, "gen.suppr")
+    open(sf, "w").write(c08.suppression_for(pr.expects, rng))
+    for opts in ([], ["--redundant", "--harmless"], ["--suppr", sf]):
         res = wl.tool_run(ctx, "abidiff", opts + [pr.a, pr.b], d)
         if run.abnormal(res):
             wl.abnormal_violation(r, res, "abidiff %s [%s]" % (" ".join(opts), what))
             continue
         rep = report.Report(res.stdout)
+        if rep.orphans:
+            r.evaluations += 1
+            r.violate("oracle:C10:entry-without-section:%s" % ("suppr" if "--suppr" in opts else "plain"),
+                      "abidiff %s lists %r outside any announced section (summary: %s) (%s)"
+                      % (" ".join(o for o in opts if not o.startswith("/")), rep.orphans[0][:120], rep.summary.get("fn"), what))
+            continue
         if rep.unparsed:
             return r.inconclusive("unparsed-report-line:" + rep.unparsed[0][:80])
         populated = max(populated, check_report(r, rep, "abidiff " + " ".join(opts), what))
-        for grp in rep.summary:
+        for grp in (rep.summary if "--suppr" not in opts else ()):
             if isinstance(rep.summary[grp], dict):
                 for kind, (net, filt) in rep.summary[grp].items():
                     totals.setdefault((grp, kind), []).append((net, filt))
